@@ -17,7 +17,7 @@ RULE = ("Hypothesis-generated histories (<=15 ops) over a fresh hierarchy A<-B<-
         "rejected class-level sets, class-level assignment of Parameter objects, class-level update() contexts and triggers, one private (underscore) parameter name, add_parameter at every level (new or existing names, via class or instance namespace), instance creation and "
         "instance sets; invariant after every op: static MRO lookup == .param view (names, identity, default, "
         "values(), repr, watch, serialization). Non-trivial = a namespace of K was read before a later op changed K or an "
-        "ancestor of K at class level; distinct = distinct case hash.")
+        "ancestor of K at class level; distinct = distinct case hash. Round 5: class-level assignments during which a class-level watcher reads the namespaces and raises; Parameters with negative precedence and the HTML display route (_repr_html_) among the reads.")
 ASSUMPTIONS = [
     "ground truth for 'the Parameter that governs attribute access' is the first Parameter found walking K.__mro__ __dict__s",
     "only Number/Integer/String parameters with static (non-dynamic) JSON-native values are used",
